@@ -8,6 +8,7 @@ import importlib
 import zlib
 import os
 import random
+import subprocess
 import sys
 import time
 
@@ -191,32 +192,14 @@ def props_module(pid, solver):
     return base if os.path.exists(path) else None
 
 
-def loop_check(pid, argv, *, monitor, n_quick, n_thorough, sweep_quick, sweep_thorough, trusted_base,
-               assumptions, rule, extra_modules=(), solvers=None, nontrivial=None, extra_stage=None):
-    """monitor(solver, op_line, out_line, state) -> None | str | (str, key)."""
-    tier = C.tier_from_argv(argv)
-    rep = C.Report(pid, tier, 'proof')
-    rep.cov['trusted_base'] = trusted_base
-    rep.cov['rule'] = rule
-    rep.assumptions = assumptions
-    sols = solvers or registry()
-    modules = list(extra_modules)
-    gens, extra, drivers = [], [], []
-    for s in sols:
-        m = props_module(pid, s)
-        if m:
-            modules.append(m)
-        gens += [g for g in s.gen_scripts if g not in gens]
-        extra += [e for e in s.extra_sources if e not in extra]
-        drivers.append(s.driver)
-    ps = C.proof_stage(rep, pid, gens, modules, driver=None, extra_sources=extra, extra_targets=drivers)
-    broken = list(ps['broken'])
-    n = n_thorough if tier == 'thorough' else n_quick
-    nsweep = sweep_thorough if tier == 'thorough' else sweep_quick
-    per = max(1, n // len(sols))
+def run_solvers(rep, broken, sols, monitor, tier, *, n, nsweep, nontrivial=None, distinct=None, label=''):
+    """The per-solver half of a loop-level check on an existing Report: harness build from the working
+    tree, op generation, bit-exact trace replay, monitors on the real solver's outputs.
+    → True iff a monitor produced a failing input."""
+    per = max(1, n // max(1, len(sols)))
     found_input = False
-    distinct = set()
-    per_solver = {}
+    distinct = distinct if distinct is not None else set()
+    per_solver = rep.cov.setdefault('per_solver', {})
     for s in sols:
         t0 = time.time()
         exe, log = s.build()
@@ -225,7 +208,12 @@ def loop_check(pid, argv, *, monitor, n_quick, n_thorough, sweep_quick, sweep_th
             continue
         rng = random.Random(C.seed() * 1000003 + (17 if tier == 'thorough' else 0) + zlib.crc32(s.name.encode()) % 1000)
         ops = s.gen_ops(rng, per, exe, nsweep)
-        r = s.replay(exe, ops)
+        try:
+            r = s.replay(exe, ops)
+        except subprocess.TimeoutExpired:
+            # a (modified) solver that does not return must end in a VIOLATION line, not in a traceback
+            r = {'n': len(ops), 'bad': 1, 'skipped': 0, 'hout': [],
+                 'first': ['real solver / driver did not return within the time limit']}
         hout = r['hout']
         rep.cov['evaluations'] += len(hout)
         rep.cov['traces_validated_against_impl'] += r['n'] - r['bad'] - r['skipped']
@@ -246,7 +234,7 @@ def loop_check(pid, argv, *, monitor, n_quick, n_thorough, sweep_quick, sweep_th
                 if isinstance(m, tuple):
                     m, key = m
                 before = len(rep.violations)
-                rep.violation(f'[{s.name}] monitor: {m}', {'solver': s.name, 'op': o, 'impl_out': h[:20000]},
+                rep.violation(f'[{s.name}] {label}monitor: {m}', {'solver': s.name, 'op': o, 'impl_out': h[:20000]},
                               True, key=key)
                 if len(rep.violations) > before:
                     found_input = True
@@ -261,10 +249,50 @@ def loop_check(pid, argv, *, monitor, n_quick, n_thorough, sweep_quick, sweep_th
                               'skipped_non_function_oracle': r['skipped'], 'mismatches': r['bad'],
                               'wall_s': round(time.time() - t0, 1)}
         rep.add_samples([{'solver': s.name, 'op': o[:600], 'impl': h[:600]} for o, h in list(zip(ops, hout))[:1]])
-    rep.cov['per_solver'] = per_solver
+    return found_input
+
+
+def stage_inputs(pid, sols, extra_modules=()):
+    """(modules, gen scripts, extra sources, driver targets) of a property over the given solvers."""
+    modules = list(extra_modules)
+    gens, extra, drivers = [], [], []
+    for s in sols:
+        m = props_module(pid, s)
+        if m and m not in modules:
+            modules.append(m)
+        gens += [g for g in s.gen_scripts if g not in gens]
+        extra += [e for e in s.extra_sources if e not in extra]
+        if s.driver not in drivers:
+            drivers.append(s.driver)
+    return modules, gens, extra, drivers
+
+
+def loop_check(pid, argv, *, monitor, n_quick, n_thorough, sweep_quick, sweep_thorough, trusted_base,
+               assumptions, rule, extra_modules=(), solvers=None, nontrivial=None, extra_stage=None,
+               extra_gens=(), extra_sources=()):
+    """monitor(solver, op_line, out_line, state) -> None | str | (str, key)."""
+    tier = C.tier_from_argv(argv)
+    rep = C.Report(pid, tier, 'proof')
+    rep.cov['trusted_base'] = trusted_base
+    rep.cov['rule'] = rule
+    rep.assumptions = assumptions
+    sols = solvers or registry()
+    modules, gens, extra, drivers = stage_inputs(pid, sols, extra_modules)
+    gens += [g for g in extra_gens if g not in gens]
+    extra += [e for e in extra_sources if e not in extra]
+    ps = C.proof_stage(rep, pid, gens, modules, driver=None, extra_sources=extra, extra_targets=drivers)
+    broken = list(ps['broken'])
+    n = n_thorough if tier == 'thorough' else n_quick
+    nsweep = sweep_thorough if tier == 'thorough' else sweep_quick
+    distinct = set()
+    found_input = run_solvers(rep, broken, sols, monitor, tier, n=n, nsweep=nsweep, nontrivial=nontrivial,
+                              distinct=distinct)
     rep.cov['distinct_nontrivial'] = len(distinct)
     if extra_stage is not None:
+        before = sum(1 for v in rep.violations if v[2])
         extra_stage(rep, broken, tier)
+        found_input = found_input or sum(1 for v in rep.violations if v[2]) > before
+    broken.extend(g for g in C.GEN_ERRORS if g not in broken)     # feedback generators that could not read the output
     if broken:
         for b in broken:
             rep.note('BROKEN: ' + b[:700])
